@@ -259,6 +259,74 @@ fn one(ctx: &mut Ctx, t: &Transaction) {
     }
 }
 
+/// change lengths through the public mutators (the cached metadata is not touched): script / script data (Script), storage slots
+/// (Create), proof set (Upload), and inputs / outputs / witnesses of every kind
+fn edit_lengths(ctx: &mut Ctx, t: &mut Transaction, class: usize) -> &'static str {
+    let r = &mut ctx.rng;
+    fn ch<T: Inputs + Outputs + Witnesses>(x: &mut T, r: &mut crate::ctx::Rng, class: usize) -> &'static str {
+        match class {
+            0 => { let i = input(r); x.inputs_mut().insert(0, i); "input-inserted-first" }
+            1 => { let n = x.inputs().len(); if n > 0 { x.inputs_mut().remove(r.below(n as u64) as usize); "input-removed" } else { let i = input(r); x.inputs_mut().push(i); "input-added" } }
+            2 => { let o = output(r); x.outputs_mut().insert(0, o); "output-inserted-first" }
+            3 => { let n = x.witnesses().len(); let extra = 1 + r.below(15) as usize;
+                   if n > 0 { let j = r.below(n as u64) as usize; let mut w = x.witnesses()[j].as_ref().to_vec(); w.extend(r.bytes(extra)); x.witnesses_mut()[j] = w.into(); "witness-grown" }
+                   else { x.witnesses_mut().push(r.bytes(extra).into()); "witness-added" } }
+            _ => { let l = 1 + r.below(15) as usize; let i = input_of(r, 6, l, l + 3, l + 5); x.inputs_mut().push(i); "predicate-input-added" }
+        }
+    }
+    match t {
+        Transaction::Script(x) => match class { 5 => { let n = 1 + r.below(15) as usize; let b = r.bytes(n); x.script_mut().extend(b); "script-grown" }
+            6 => { let n = 1 + r.below(15) as usize; let b = r.bytes(n); x.script_data_mut().extend(b); "script-data-grown" }
+            7 => { x.script_mut().clear(); "script-emptied" } c => ch(x, r, c % 5) },
+        Transaction::Create(x) => if class >= 5 { let sl = StorageSlot::new(b32(r).into(), b32(r).into()); x.storage_slots_mut().as_mut().push(sl); "storage-slot-added" } else { ch(x, r, class) },
+        Transaction::Upload(x) => if class >= 5 { x.proof_set_mut().push(b32(r).into()); "proof-added" } else { ch(x, r, class) },
+        Transaction::Upgrade(x) => ch(x, r, class % 5),
+        Transaction::Blob(x) => ch(x, r, class % 5),
+        Transaction::Mint(_) => "mint",
+    }
+}
+
+/// precompute → change lengths → precompute AGAIN on the same object: every offset answered from the cache must equal the one a
+/// cache-free copy (decoded from the bytes) computes and locate the field's bytes; the cached body metadata of Create / Upgrade
+/// must be that of the current content
+fn reprecompute(ctx: &mut Ctx, t: &Transaction, class: usize) {
+    if matches!(t, Transaction::Mint(_)) { return; }
+    let kind = TX_NAMES[tx_variant(t)];
+    let chain = ChainId::new(ctx.rng.below(4));
+    let mut x = t.clone();
+    if x.precompute(&chain).is_err() { ctx.count(&format!("re.precompute1.err.{kind}")); return; }
+    let what = edit_lengths(ctx, &mut x, class);
+    if x.precompute(&chain).is_err() { ctx.count(&format!("re.precompute2.err.{kind}")); return; }
+    let bytes = x.to_bytes();
+    let fresh = match <Transaction as fuel_types::canonical::Deserialize>::from_bytes(&bytes) { Ok(f) => f, Err(_) => { ctx.count("re.undecodable"); return; } };
+    let tx_text = |t: &Transaction| match t { Transaction::Script(x) => x.vt(), Transaction::Create(x) => x.vt(), Transaction::Mint(x) => x.vt(), Transaction::Upgrade(x) => x.vt(), Transaction::Upload(x) => x.vt(), Transaction::Blob(x) => x.vt() };
+    let req = format!("recached {kind} {} | {}", tx_text(t), tx_text(&fresh));
+    ctx.count(&format!("re.{what}.{kind}"));
+    let r = std::panic::catch_unwind(std::panic::AssertUnwindSafe(|| (report(ctx, &x, &req, true), report(ctx, &fresh, &req, false))));
+    match r {
+        Err(_) => { ctx.panics += 1; ctx.oracle_fail(&format!("panic-offsets-recached-{kind}"), &req, "an offset function panicked"); }
+        Ok((c, u)) => {
+            if c != u {
+                let d = c.iter().zip(u.iter()).find(|(a, b)| a != b).map(|(a, b)| format!("after precompute, {what}, precompute: cached {a} but uncached {b}")).unwrap_or_default();
+                ctx.oracle_fail(&format!("stale-cached-offset-after-second-precompute-{kind}-{what}"), &req, &d);
+            }
+            ctx.emit(&req, &c.join(" "));
+        }
+    }
+    // cached body metadata that is not an offset
+    match (&x, &fresh) {
+        (Transaction::Create(a), Transaction::Create(f)) => {
+            let want = fuel_tx::CreateMetadata::compute(f).ok();
+            if a.metadata().as_ref().map(|m| m.body.clone()) != want { ctx.oracle_fail("stale-create-metadata-after-second-precompute", &req, "cached CreateMetadata is not that of the current content"); }
+        }
+        (Transaction::Upgrade(a), Transaction::Upgrade(f)) => {
+            let want = fuel_tx::UpgradeMetadata::compute(f).ok();
+            if a.metadata().as_ref().map(|m| m.body.clone()) != want { ctx.oracle_fail("stale-upgrade-metadata-after-second-precompute", &req, "cached UpgradeMetadata is not that of the current content"); }
+        }
+        _ => {}
+    }
+}
+
 /// a chargeable transaction of kind `k` with the given parts; precompute-friendly where `good` (bytecode witness
 /// index in range for Create, a state-transition purpose or a matching consensus-parameters witness for Upgrade)
 fn build(ctx: &mut Ctx, k: usize, pol: Policies, ins: Vec<Input>, outs: Vec<Output>, mut wits: Vec<Witness>, good: bool) -> Transaction {
@@ -303,6 +371,8 @@ pub fn run(ctx: &mut Ctx) {
             let pol = policies(&mut ctx.rng, 0b111111);
             let t = build(ctx, k, pol, ins, outs, wits, true);
             one(ctx, &t);
+            // a second precompute on an object that already carries metadata, for every class of length change
+            for class in 0..8 { reprecompute(ctx, &t, class); }
         }
         for mask in 0..64u32 { let pol = policies(&mut ctx.rng, mask); let k = CHARGEABLE[(mask % 5) as usize]; let i = vec![input(&mut ctx.rng)]; let t = build(ctx, k, pol, i, vec![], vec![], true); one(ctx, &t); }
         let t = tx_of(&mut ctx.rng, 2, 0);
@@ -339,6 +409,8 @@ pub fn run(ctx: &mut Ctx) {
         let good = !r.chance(1, 8);
         let t = build(ctx, k, pol, ins, outs, wits, good);
         one(ctx, &t);
+        let class = ctx.rng.below(8) as usize;
+        reprecompute(ctx, &t, class);
     }
     // 3. inputs outside `InputCodec.wt` (empty predicate / empty data: findings F2/F3 of C01): the offsets must still be right
     for k in CHARGEABLE {
